@@ -1,5 +1,5 @@
 from .. import facts
-from ..rules import sampling, tables, geometry, traps, prefetch, alloc, filt, region, codec
+from ..rules import sampling, tables, geometry, traps, prefetch, alloc, filt, region, codec, status
 
 
 def run(ck):
@@ -28,3 +28,4 @@ def run(ck):
     region.r7_20_partial_word_read_needs_partial_word(ck, P)     # the bitmap import reads the caller's a1 image
     region.r7_19_bitmap_read_only_with_pixels(ck, P, 'C04-R21')
     codec.r20_pixel_reader_stride_matches_row_format(ck, P)
+    status.r19_14_direct_fill_passes_the_image_bounds(ck, P, 'C04-R23')   # the direct fill writes wherever its rectangles say: they are bounded by the image on every path
